@@ -56,7 +56,7 @@ def norm_text(s):
     return s if s else None          # '' and None carry the same information
 
 
-def tree_diff(a, b, path="/", *, ordered_attrs=True, out=None, limit=5):
+def tree_diff(a, b, path="/", *, ordered_attrs=True, unordered_first=(), out=None, limit=5):
     """Differences between two lxml elements: tag, attributes (ordered), text, tail,
     namespaces in scope that are used, child order.  Returns a list of strings."""
     out = [] if out is None else out
@@ -67,12 +67,14 @@ def tree_diff(a, b, path="/", *, ordered_attrs=True, out=None, limit=5):
         out.append(f"{here}: tag {a.tag!r} != {b.tag!r}")
         return out
     ia, ib = list(a.items()), list(b.items())
-    if (ia != ib) if ordered_attrs else (dict(ia) != dict(ib)):
+    oa = [kv for kv in ia if kv[0] not in unordered_first]
+    ob = [kv for kv in ib if kv[0] not in unordered_first]
+    if (oa != ob or dict(ia) != dict(ib)) if ordered_attrs else (dict(ia) != dict(ib)):
         if dict(ia) != dict(ib):
             ka = {k for k, v in ia if dict(ib).get(k) != v} | {k for k, v in ib if dict(ia).get(k) != v}
             out.append(f"{here}: attributes differ on {sorted(ka)[:3]}: {[dict(ia).get(k) for k in sorted(ka)[:3]]!r} != {[dict(ib).get(k) for k in sorted(ka)[:3]]!r}")
         else:
-            out.append(f"{here}: attribute order {[k for k, _ in ia]} != {[k for k, _ in ib]}")
+            out.append(f"{here}: attribute order {[k for k, _ in oa]} != {[k for k, _ in ob]}")
     if norm_text(a.text) != norm_text(b.text):
         out.append(f"{here}: text {a.text!r} != {b.text!r}")
     if norm_text(a.tail) != norm_text(b.tail):
@@ -89,7 +91,7 @@ def tree_diff(a, b, path="/", *, ordered_attrs=True, out=None, limit=5):
         out.append(f"{here}: {len(ca)} children != {len(cb)}")
         return out
     for i, (x, y) in enumerate(zip(ca, cb)):
-        tree_diff(x, y, f"{here}[{i}]/", ordered_attrs=ordered_attrs, out=out, limit=limit)
+        tree_diff(x, y, f"{here}[{i}]/", ordered_attrs=ordered_attrs, unordered_first=unordered_first, out=out, limit=limit)
         if len(out) >= limit:
             break
     return out
